@@ -18,6 +18,7 @@ import CatVerif.Proofs.Graph
 import CatVerif.Proofs.Steps.ByFsm
 import CatVerif.Proofs.Steps.Format
 import CatVerif.Proofs.Steps.CmdList
+import CatVerif.Proofs.Steps.Leaves
 namespace Cat
 open St
 
@@ -236,5 +237,10 @@ theorem C19_counters_unbounded :
     Gen.width_obj_position = 64 ∧
     Gen.width_uns_index = 64 ∧
     Gen.width_uns_position = 64 := by decide
+
+/-- fits-or-fails of every piece of a TEST response and of every command-list line goes through the printing primitive,
+the transliteration of `print_nstring_to_buf` (translator item T22) -/
+theorem C19_print_generated (D : Desc) (s : St) (f : Fsm) (x : List Byte) : printN D s f x = Gen.print_nstring_to_buf D s f x :=
+  printN_generated D s f x
 
 end Cat
